@@ -373,6 +373,10 @@ func (fs faultsim) Run(c *Case, dir string) *Outcome {
 		}
 	}
 	for _, pl := range plans {
+		if PastDeadline() {
+			out.probe("stopped-at-deadline", 1)
+			break
+		}
 		Tick()
 		plan := pl
 		viol, _, fired, herr := fs.runFaulted(c, dir, ex.Target, &plan, out)
